@@ -242,4 +242,7 @@ def translated : List String := ["CoinswapParamsValidate(p_Fee,p_PoolCreationFee
 /-- every rejecting guard of the translated functions, in source order -/
 def guards : List String := ["CoinswapParamsValidate: !p.Fee.GT(math.LegacyZeroDec()) || !p.Fee.LT(math.LegacyOneDec())", "CoinswapParamsValidate: !p.PoolCreationFee.IsPositive()", "CoinswapParamsValidate: err := sdk.ValidateDenom(p.PoolCreationFee.Denom); err != nil", "CoinswapParamsValidate: !p.TaxRate.GT(math.LegacyZeroDec()) || !p.TaxRate.LT(math.LegacyOneDec())", "CoinswapParamsValidate: !p.UnilateralLiquidityFee.GTE(math.LegacyZeroDec()) || !p.UnilateralLiquidityFee.LT(math.LegacyOneDec())", "FarmValidatePoolCreationFee: !ok", "FarmValidatePoolCreationFee: !v.IsValid()", "FarmValidateTaxRate: !ok", "FarmValidateTaxRate: v.IsNil() || !v.GT(math.LegacyZeroDec()) || !v.LT(math.LegacyOneDec())", "FarmParamsValidate: err := validatePoolCreationFee(p.PoolCreationFee); err != nil", "TokenValidateTaxRate: !ok", "TokenValidateTaxRate: v.GT(math.LegacyNewDec(1)) || v.LT(math.LegacyZeroDec())", "TokenValidateMintTokenFeeRatio: !ok", "TokenValidateMintTokenFeeRatio: v.GT(math.LegacyNewDec(1)) || v.LT(math.LegacyZeroDec())", "TokenValidateIssueTokenBaseFee: !ok", "TokenValidateIssueTokenBaseFee: v.IsNegative()", "TokenValidateIssueTokenBaseFee: err := sdk.ValidateDenom(v.Denom); err != nil", "ServiceValidateMaxRequestTimeout: !ok", "ServiceValidateMaxRequestTimeout: v <= 0", "ServiceValidateMinDepositMultiple: !ok", "ServiceValidateMinDepositMultiple: v <= 0", "ServiceValidateMinDeposit: !ok", "ServiceValidateMinDeposit: !v.IsValid()", "ServiceValidateSlashFraction: !ok", "ServiceValidateSlashFraction: v.LT(math.LegacyZeroDec()) || v.GT(math.LegacyOneDec())", "ServiceValidateServiceFeeTax: !ok", "ServiceValidateServiceFeeTax: v.LT(math.LegacyZeroDec()) || v.GTE(math.LegacyOneDec())", "ServiceValidateComplaintRetrospect: !ok", "ServiceValidateComplaintRetrospect: v <= 0", "ServiceValidateArbitrationTimeLimit: !ok", "ServiceValidateArbitrationTimeLimit: v <= 0", "ServiceValidateTxSizeLimit: !ok", "ServiceValidateTxSizeLimit: v == 0", "ServiceValidateRestrictedServiceFeeDenom: !ok", "ServiceParamsValidate: err := validateMaxRequestTimeout(p.MaxRequestTimeout); err != nil", "ServiceParamsValidate: err := validateMinDepositMultiple(p.MinDepositMultiple); err != nil", "ServiceParamsValidate: err := validateMinDeposit(p.MinDeposit); err != nil", "ServiceParamsValidate: err := validateSlashFraction(p.SlashFraction); err != nil", "ServiceParamsValidate: err := validateServiceFeeTax(p.ServiceFeeTax); err != nil", "ServiceParamsValidate: err := validateComplaintRetrospect(p.ComplaintRetrospect); err != nil", "ServiceParamsValidate: err := validateArbitrationTimeLimit(p.ArbitrationTimeLimit); err != nil", "ServiceParamsValidate: err := validateTxSizeLimit(p.TxSizeLimit); err != nil", "ServiceParamsValidate: err := sdk.ValidateDenom(p.BaseDenom); err != nil"]
 
+/-- every statement of the translated functions executed for its effect, with its nesting depth, in source order -/
+def effects : List String := []
+
 end Irismod.Gen.PureParams
